@@ -24,7 +24,7 @@ CLAIMED = {
  "C10": dict(text="A reader handle reloads and scans while writers add and compact, for every schedule within the context bound: every scan must succeed and show one committed snapshot (all of a transaction or none of it).", ref="5/C10", note=FSNOTE),
  "C16": dict(text="Residue check at quiescence over the concurrent scenarios of C04 and over sequential failure paths (failing write function, rejected limits, stale Add, empty Add, Clean/Close on empty and non-empty stacks and after another process was abandoned mid-Add): the directory holds exactly tables.list and the tables it names, and listed tables are never removed.", ref="5/C16", note=FSNOTE),
  "C19": dict(text="Sufficient frame condition decided over all paths: everything reachable from the shared Reader / Merged (memory- and file-backed) is marked shared, a mixed read workload with a symbolic lookup key is run twice, and any store, map update, in-place append or copy into shared state, or non-positional use of a shared descriptor, is a violation (unless under a mutex that is part of the shared state). No shared write on any path implies no data race between concurrent readers and interleaving-independent results; goroutine schedules themselves are not explored. Counterexamples are confirmed by running the two calls in two goroutines under the Go race detector.", ref="5/C19", note=FSNOTE),
- "C15": dict(text="Tables in both directions; stack directories NOT decided (c/stack.c talks to the file system directly and is not encoded). /repo/c (all but tests, dump.c, stack.c) and the C-side harness code harness/cshim.c are compiled with clang -O1 to LLVM IR and linked on every run; the IR is interpreted symbolically by engine/llir.go, which shares terms, solver and exploration with the Go executor. Tables written by the Go writer or by the C writer (small tables with symbolic names/values/indices of every record kind; nine shaped tables with multi-level ref/object/log indexes; a log block deflate cannot shrink) are read by both readers - full scans, SeekRef/SeekLog with a symbolic key, RefsFor - and the canonical record streams are asserted identical to each other and to the records given to the writer. The leaf codec kernels (varint, key prefix compression, ref value encoding) are additionally asserted byte-identical. C memory faults (out of bounds, NULL, use after free, abort) on the way are violations.", ref="5/C15 and 11.5", note=BASE_NOTE + " Trusted additionally: the LLVM-IR front end (llir.go: byte-granular bounds-checked objects, vtables and indirect calls, libc/zlib models), clang's IR as the meaning of the C code. Counterexamples are confirmed by running the natively compiled C library with the same harness code under AddressSanitizer.", technique="bounded symbolic execution of Go SSA and of clang's LLVM IR of the C library into one SMT query per path (z3), differential assertions between the two implementations"),
+ "C15": dict(text="Tables and stack directories in both directions, for sequential use (the two implementations take turns; a Go and a C process preempting each other, and crashes of the C side, are not explored). /repo/c (all but tests and dump.c) and the C-side harness code harness/cshim.c are compiled with clang -O1 to LLVM IR and linked on every run; the IR is interpreted symbolically by engine/llir.go, which shares terms, solver and exploration with the Go executor. Tables written by the Go writer or by the C writer (small tables with symbolic names/values/indices of every record kind; nine shaped tables with multi-level ref/object/log indexes; a log block deflate cannot shrink) are read by both readers - full scans, SeekRef/SeekLog with a symbolic key, RefsFor - and the canonical record streams are asserted identical to each other and to the records given to the writer. Stack directories: the C stack's file-system calls run on the same model file system as the Go stack; after 1..4 alternating transactions / compactions by either implementation both merged views are asserted identical and equal to what the transactions say. The leaf codec kernels (varint, key prefix compression, ref value encoding) are additionally asserted byte-identical. C memory faults (out of bounds, NULL, use after free, abort) on the way are violations.", ref="5/C15 and 11.5", note=BASE_NOTE + " Trusted additionally: the LLVM-IR front end (llir.go: byte-granular bounds-checked objects, vtables and indirect calls, libc/zlib models), clang's IR as the meaning of the C code. Counterexamples are confirmed by running the natively compiled C library with the same harness code under AddressSanitizer.", technique="bounded symbolic execution of Go SSA and of clang's LLVM IR of the C library into one SMT query per path (z3), differential assertions between the two implementations"),
  "C18": dict(text="Every decoder entry point is run on an arbitrary (fully symbolic) buffer of bounded length; index/slice/nil/divide/allocation panics and step-budget overruns are implicit assertions decided by z3 on every path. Hostile deflate streams and longer files are outside the bound.", ref="5/C18"),
 }
 NOT_YET = "check not built yet in this session (work in progress); planned per DESIGN.md section 5"
